@@ -813,3 +813,79 @@ def write_tree(root: str, files: T.Dict[str, str]) -> None:
         os.makedirs(os.path.dirname(p), exist_ok=True)
         with open(p, 'w', encoding='utf-8', newline='') as fh:
             fh.write(text)
+
+
+# ------------------------------------------------------------------------------------------------ layout-hostile tokens
+
+_NL_PROBES = ["'''a\nb'''", "f'''a\nb'''", "\\\n", "\\  # c\n", "'a\nb'", "f'a\nb'", "# c\n", " \n", "\t\n", "x\n", "1\n", "+=\n", "==\n",
+              "!=\n", "<=\n", ">=\n"]
+
+
+def harvest_hostile_token_kinds() -> T.Dict[str, str]:
+    """from the LIVE `Lexer.token_specification`: every token kind whose match can contain a newline (so that the line /
+    column of everything after it on its last line depends on extra bookkeeping), with a sample text"""
+    M = mp()
+    kinds: T.Dict[str, str] = {}
+    for tid, reg in M.Lexer('').token_specification:
+        for p in _NL_PROBES:
+            m = reg.match(p)
+            if m and '\n' in m.group():
+                kinds[tid] = m.group()
+                break
+    return kinds
+
+
+def adjacent_tokens(code: str, span: T.Tuple[int, int, int, int]) -> T.Set[str]:
+    """token kinds of `code` that share a physical line with the start / the end of the node at `span`
+    (lineno, colno, end_lineno, end_colno): '<tid>:before-start', '<tid>:before-end', '<tid>:after-end'.
+    A token spanning several lines counts for its LAST line (what follows it is what gets a column)."""
+    M = mp()
+    starts = [0]
+    for i, ch in enumerate(code):
+        if ch == '\n':
+            starts.append(i + 1)
+    try:
+        s_off = starts[span[0] - 1] + span[1]
+        e_off = starts[span[2] - 1] + span[3]
+    except IndexError:
+        return set()
+    out: T.Set[str] = set()
+
+    def line_of(off: int) -> int:
+        lo = 0
+        for i, st in enumerate(starts):
+            if st <= off:
+                lo = i
+        return lo + 1
+    try:
+        toks = list(M.Lexer(code).lex('f'))
+    except Exception:
+        return out
+    for t in toks:
+        a, b = t.bytespan
+        text = code[a:b]
+        if t.tid == 'eol':
+            continue
+        kind = t.tid
+        if t.tid == 'whitespace':
+            kind = 'whitespace-tab' if '\t' in text else ('eol_cont' if text.startswith('\\') else None)
+        elif t.tid in ('string', 'fstring') and '\n' not in text:
+            kind = 'string-escape' if '\\' in text else ('string-nonascii' if any(ord(c) > 127 for c in text) else None)
+        elif t.tid in ('multiline_string', 'multiline_fstring') and '\n' not in text:
+            kind = None
+        elif t.tid not in ('string', 'fstring', 'multiline_string', 'multiline_fstring', 'comment'):
+            kind = None
+        if kind is None:
+            continue
+        last_line = line_of(max(a, b - 1))
+        if kind == 'eol_cont':
+            last_line = line_of(b)        # what follows a continuation is on the next physical line
+        if b <= s_off and last_line == span[0]:
+            out.add(kind + ':before-start')
+        elif s_off <= a and b <= e_off and last_line == span[2]:
+            out.add(kind + ':before-end')
+        elif a >= e_off and line_of(a) == span[2]:
+            out.add(kind + ':after-end')
+    if not code.endswith('\n') and line_of(e_off) == len(starts):
+        out.add('eof-without-newline:after-end')
+    return out
